@@ -44,7 +44,7 @@ def _case(draw):
 
 def drivers(tier):
     th = tier == 'thorough'
-    return [dict(kind='hyp', name='records', strategy=_case(), examples=30000 if th else 2000)]
+    return [dict(kind='hyp', name='records', strategy=_case(), examples=90000 if th else 8000)]
 
 
 def _close(a, b, scale):
